@@ -95,7 +95,9 @@ def cases(shard, tier):
                     continue
                 yield {'family': fam, 'ctx': ctx, 'shape': shape, 'src': src, 'must': True}
     elif fam == 'missing':
-        for how in ('dict-key', 'h5-dataset', 'h5-file', 'struct-field', 'no-data-at-all', 'dataset-name-mismatch'):
+        for how in ('dict-key', 'h5-dataset', 'h5-file', 'struct-field', 'no-data-at-all', 'dataset-name-mismatch',
+                    # the only array ever offered under the channel's name came with an add_channel call that was refused
+                    'only-a-refused-call-brought-data', 'only-a-refused-call-brought-data-named-set'):
             yield {'family': fam, 'ctx': ctx, 'how': how, 'must': True}
     elif fam == 'longtext':
         for n in (256, 300):
@@ -215,6 +217,13 @@ def make_spec(c):
         elif how == 'struct-field':
             sp = base(ctx, src='struct')
             sp['write']['data']['$struct']['fields'].pop()
+        elif how.startswith('only-a-refused-call-brought-data'):
+            sp = base(ctx, src='inline')
+            sn = {'set_name': 'GAMMA-SET'} if how.endswith('named-set') else {}
+            sp['ops'].append(S.op_add('channel', 'RJ', 'GR', expect='raise', data=_arr('float32', [3]),
+                                      properties=['NOT-A-PROPERTY'], **sn))
+            sp['ops'].append(S.op_add('channel', 'GX', 'GR', **sn))
+            sp['ops'].append(S.op_add('frame', 'FG', 'FRAME-G', channels=[{'$ref': 'GX'}]))
         elif how == 'no-data-at-all':
             sp = base(ctx, src='dict')
             del sp['write']['data']
